@@ -362,21 +362,29 @@ def normalize_url(
         if trailing_slash and not strip_trailing_slash:
             path = path + "/"
 
-    # Handling Google AMP suffixes
-    if normalize_amp:
-        path = AMP_SUFFIXES_RE.sub("", path)
+    # NOTE: until nothing changes, since "/a/amp/index.html" hides an AMP suffix
+    # behind its index page, and "/a/index/" an index page behind its slash
+    while path:
+        previous_path = path
 
-    # Dropping index:
-    if strip_index:
-        segments = path.rsplit("/", 1)
+        # Handling Google AMP suffixes
+        if normalize_amp:
+            path = AMP_SUFFIXES_RE.sub("", path)
 
-        if len(segments) != 0:
-            last_segment = segments[-1]
-            filename, _ = splitext(last_segment)
+        # Dropping index:
+        if strip_index:
+            segments = path.rsplit("/", 1)
 
-            if filename == "index" or filename == "default":
-                segments.pop()
-                path = "/".join(segments)
+            if len(segments) != 0:
+                last_segment = segments[-1]
+                filename, _ = splitext(last_segment)
+
+                if filename == "index" or filename == "default":
+                    segments.pop()
+                    path = "/".join(segments)
+
+        if path == previous_path:
+            break
 
     # Normalizing AMP subdomains & dropping irrelevant subdomains
     # NOTE: until nothing changes, since "amp-www.lemonde.fr" hides a "www."
